@@ -18,6 +18,7 @@ package proxy
 import (
 	"context"
 	"errors"
+	"io"
 	"net"
 	"net/http"
 	"net/url"
@@ -360,6 +361,8 @@ func createUpstreamRequest(rw http.ResponseWriter, r *http.Request) (*http.Reque
 	// For server requests the Request Body is always non-nil.
 	if r.ContentLength == 0 {
 		outreq.Body = nil
+	} else if outreq.Body != nil {
+		outreq.Body = &endStickyBody{ReadCloser: outreq.Body}
 	}
 
 	// We are modifying the same underlying map from req (shallow
@@ -406,6 +409,29 @@ func createUpstreamRequest(rw http.ResponseWriter, r *http.Request) (*http.Reque
 	}
 
 	return outreq, cancel
+}
+
+// endStickyBody remembers that the wrapped request body has been read to
+// its end and answers every later Read with io.EOF itself. The server closes
+// an incoming request body once the response is being written, while the
+// transport that forwards the same body may still be probing it for bytes
+// beyond the announced length; without this it then gets
+// http.ErrBodyReadAfterClose, treats the request as failed and closes the
+// backend connection in the middle of the response.
+type endStickyBody struct {
+	io.ReadCloser
+	ended bool
+}
+
+func (b *endStickyBody) Read(p []byte) (int, error) {
+	if b.ended {
+		return 0, io.EOF
+	}
+	n, err := b.ReadCloser.Read(p)
+	if err == io.EOF {
+		b.ended = true
+	}
+	return n, err
 }
 
 func createRespHeaderUpdateFn(rules http.Header, replacer httpserver.Replacer, replacements headerReplacements) respUpdateFn {
